@@ -89,13 +89,13 @@ type c38family struct {
 
 var c38families = []c38family{
 	// header filtering / lower-casing / status, little body
-	{"hdr", []string{"S204", "S404", "S404l", "Hconn", "Hka", "Hpc", "Hte", "Hup", "Hmix", "Hct", "Hpa", "Tval", "W1", "F", "R"}, 3, 4},
+	{"hdr", []string{"S204", "S404", "S404l", "Hconn", "Hka", "Hpc", "Hte", "Hup", "Hmix", "Hct", "Hpa", "Tval", "W1", "F", "R"}, 4, 5},
 	// write sizes x flush placement x content-length x status
-	{"body", []string{"S200", "S204", "S304", "S404", "S404l", "Hcl0", "Hcl1", "Hcl4097", "W0", "W1", "W4096", "W4097", "F", "R"}, 4, 5},
+	{"body", []string{"S200", "S204", "S304", "S404", "S404l", "Hcl0", "Hcl1", "Hcl4097", "W0", "W1", "W4096", "W4097", "F", "R"}, 4, 6},
 	// trailers declared / undeclared / value set or not x body x flush x body-less status
-	{"trl", []string{"S204", "Htr", "Tval", "Tund", "Hcl1", "W1", "W4097", "F", "R"}, 5, 6},
+	{"trl", []string{"S204", "Htr", "Tval", "Tund", "Hcl1", "W1", "W4097", "F", "R"}, 5, 7},
 	// everything that changes the shape of the response, short
-	{"mix", []string{"S304", "S404", "Hconn", "Hte", "Hmix", "Hcl1", "Htr", "Tval", "Tund", "W0", "W4097", "F", "R"}, 3, 4},
+	{"mix", []string{"S304", "S404", "Hconn", "Hte", "Hmix", "Hcl1", "Htr", "Tval", "Tund", "W0", "W4097", "F", "R"}, 3, 5},
 }
 
 var c38connSpecific = map[string]bool{"connection": true, "keep-alive": true, "proxy-connection": true, "transfer-encoding": true, "upgrade": true}
